@@ -55,10 +55,11 @@ def seek_steps(rng, g, h=1, raw_too=True):
 
 
 def gen_c03(rng, i):
-    g = S.HistGen(rng, rng.sample(S.NAMES_PLAIN, rng.randint(2, 7)))
+    deep = i % 4 == 2       # six to nine tables alive at once, several interleaved records each: the merge heap has three levels
+    g = S.HistGen(rng, rng.sample(S.NAMES_PLAIN, rng.randint(8, 12) if deep else rng.randint(2, 7)))
     g.steps.append({"op": "open", "h": 1})
-    for t in range(rng.randint(1, 5)):
-        g.add()
+    for t in range(rng.randint(6, 9) if deep else rng.randint(1, 5)):
+        g.add(part=g.part(maxrefs=7) if deep else None)
     g.observe(tag="C03", raw=True)
     g.steps += seek_steps(rng, g)
     if rng.random() < 0.5 and g.ntab >= 2:
